@@ -17,7 +17,7 @@ from . import common, c04
 ID = "C16"
 NEEDS_MODEL = True
 LEVEL = "exploration"
-N = {"quick": 800, "thorough": 9000}
+N = {"quick": 800, "thorough": 24000}
 
 
 def classify(spec, problems, extents=None):
